@@ -51,7 +51,7 @@ ENV.pop("RUSTFLAGS", None)
 class Harness:
     def __init__(self, name, tier="quick", timeout=300, mem=8, covers=1, desc="",
                  inputs="", bound="", expect="pass", finding=None, extra_args=None,
-                 unwind_failure_is_violation=False, thorough_timeout=None, unwindset=None, crate=None):
+                 unwind_failure_is_violation=False, thorough_timeout=None, unwindset=None, crate=None, cbmc_args=None):
         self.name = name
         self.tier = tier
         self.timeout = timeout
@@ -66,6 +66,7 @@ class Harness:
         self.unwind_failure_is_violation = unwind_failure_is_violation
         self.thorough_timeout = thorough_timeout
         self.crate = crate            # harness crate, if different from the spec's
+        self.cbmc_args = cbmc_args or []   # extra CBMC flags (e.g. --arrays-uf-always), recorded in the evidence
         # [(regex over "loop id: pretty function name", bound)]: per-loop bounds (CBMC --unwindset) that override the
         # harness-wide #[kani::unwind]; loop ids are read from the freshly compiled GOTO binary on every run.
         self.unwindset = unwindset or []
@@ -164,12 +165,23 @@ def run_cmd(cmd, cwd, timeout, mem_gb, logfile):
 # one harness
 
 
+def merge_cbmc_args(h, unwindset_extra):
+    """`--cbmc-args` swallows the rest of the command line, so the harness' own CBMC flags and the resolved
+    --unwindset (which arrives as [-Z unstable-options --cbmc-args --unwindset ...]) go into one trailing group."""
+    tail = list(h.cbmc_args)
+    if unwindset_extra:
+        i = unwindset_extra.index("--cbmc-args")
+        tail += unwindset_extra[i + 1:]
+    if not tail:
+        return []
+    return ["-Z", "unstable-options", "--cbmc-args"] + tail
+
+
 def kani_cmd(crate, h, export_json, extra=None):
     cmd = ["cargo", "kani", "--target-dir", target_dir(crate), "--harness", h.name, "--exact",
            "-Z", "unstable-options", "--export-json", export_json]
     cmd += h.extra_args
-    if extra:
-        cmd += extra
+    cmd += merge_cbmc_args(h, extra)
     return cmd
 
 
@@ -424,12 +436,13 @@ def replay_counterexample(pid, crate, h, outdir):
     logf = os.path.join(outdir, h.short + ".playback-gen.log")
     cmd = ["cargo", "kani", "--target-dir", target_dir(crate), "--harness", h.name, "--exact",
            "-Z", "concrete-playback", "--concrete-playback=print"] + h.extra_args
+    extra = None
     if h.unwindset:
         try:
             extra, _ = resolve_unwindset(crate, scratch, h, outdir)
-            cmd += extra
         except Exception:
-            pass
+            extra = None
+    cmd += merge_cbmc_args(h, extra)
     rc, wall, _ = run_cmd(cmd, scratch, max(h.timeout * 2, 600), max(h.mem, 12), logf)
     text = open(logf, errors="replace").read()
     tests = extract_playback_tests(text)
@@ -699,6 +712,7 @@ def run_check(spec, tier, seed):
             "wall_s": r["wall_s"], "peak_rss_mb": r["peak_rss_mb"],
             "replay": r.get("replay"),
             "per_loop_bounds": r.get("unwindset") or [],
+            "cbmc_flags": h.cbmc_args,
         })
     ev = {
         "property_id": pid,
